@@ -15,6 +15,7 @@ CONSTANTS
   RetireById = TRUE
   RelOnRefusal = TRUE
   CtxSelect = TRUE
+  CapRegroup = TRUE
   SearchBudget = 2000000
 SPECIFICATION TraceSpec
 INVARIANTS TypeOK OwnCopy OwnId_ OwnQuestion CtxPrivate ErrorsFromOwnFlight WaitersAttached ForgottenWhenDone
